@@ -170,13 +170,25 @@ fn grid(rng: &mut StdRng, out: &mut Vec<Vector>) {
                     (void_after - as_of - 1, "void-1"), (void_after - as_of, "void"), (void_after - as_of + 1, "void+1"),
                     (3 * 3600 * G + 12_345_678_901, "hours"), (G / 3, "sub-second"), (-5 * G, "far-past"),
                 ];
+                // ages at which a narrowed or re-scaled age wraps (2^31 / 2^32 ns, us, ms; 2^53 ns): far beyond void-after
+                let mut deltas = deltas;
+                if ai % 3 == 1 {
+                    for (w, wname) in [((1i128 << 32) + G, "wrap32ns"), ((1i128 << 32) * 1000 + G / 2, "wrap32us"), ((1i128 << 33) * 1000 + G, "wrap33us"),
+                                       ((1i128 << 31) * 1000 + G, "wrap31us"), ((1i128 << 32) * 1_000_000 + G, "wrap32ms"), ((1i128 << 53) + 1, "wrap53ns")] {
+                        deltas.push((w, wname));
+                    }
+                }
                 for (d, dname) in deltas {
                     let mono = as_of + d;
-                    if mono < 0 {
+                    if mono < 0 || mono >= (1i128 << 62) {
                         continue;
                     }
                     let di = rng.gen_range(0..drifts.len());
-                    for drift in [drifts[di], drifts[(ai + status as usize) % drifts.len()]] {
+                    // the decisive ages with EVERY valid drift rate (0 included), the others with two
+                    let key = dname.starts_with("wrap") || dname == "grace+1" || dname == "void+1" || dname == "hours";
+                    let all: Vec<u32> = drifts.iter().copied().filter(|d| *d < 1_000_000_000).collect();
+                    let two = vec![drifts[di], drifts[(ai + status as usize) % drifts.len()]];
+                    for drift in if key && ai % 3 == 1 { all } else { two } {
                         let bound = bounds[rng.gen_range(0..bounds.len())];
                         let real = rng.gen_range(1_600_000_000i128..1_900_000_000) * G + [0, 1, 999_999_999, 500_000_000][rng.gen_range(0..4)];
                         let dclass = if drift == 0 { "d0" } else if drift < 1_000_000_000 { "dok" } else { "dbad" };
